@@ -13,6 +13,10 @@ const rule = "the finite product {struct value, pointer to struct, TypeNamer on 
 var collEnum = vkit.NewCollector("C15", "TestProduct", rule)
 var collRand = vkit.NewCollector("C15", "TestRandom", rule)
 
+var collFlaky = vkit.NewCollector("C15", "TestFlakyStore", "1-12 publishes of drawn shapes (all shapes of TestProduct) on a bus whose store fails appends by a drawn cyclic plan: plain errors and temporary errors (Temporary() == true, wrapped). Oracle: whatever the bus does about a failed append, no more records than publishes, and every record in the log carries a type name EventType reports for one of the published events. Non-trivial = a failing append and a custom-named or pointer shape in the same case.")
+
+func TestFlakyStore(t *testing.T) { vkit.Check(t, collFlaky, GenFlaky, RunFlaky) }
+
 func TestMain(m *testing.M) { vkit.Main(m) }
 
 func TestProduct(t *testing.T) {
@@ -29,5 +33,5 @@ func TestRandom(t *testing.T) { vkit.Check(t, collRand, Gen, Run) }
 
 func TestReplay(t *testing.T) {
 	r := vkit.NeedReplay(t)
-	_ = vkit.ReplayCase(t, r, collEnum, Run) || vkit.ReplayCase(t, r, collRand, Run)
+	_ = vkit.ReplayCase(t, r, collEnum, Run) || vkit.ReplayCase(t, r, collRand, Run) || vkit.ReplayCase(t, r, collFlaky, RunFlaky)
 }
